@@ -1,4 +1,5 @@
 import io
+from threading import RLock
 from typing import List, Any, IO, TYPE_CHECKING
 
 from .ansi import AnsiDecoder
@@ -16,6 +17,7 @@ class FileProxy(io.TextIOBase):
         self.__file = file
         self.__buffer: List[str] = []
         self.__ansi_decoder = AnsiDecoder()
+        self.__lock = RLock()
 
     @property
     def rich_proxied_file(self) -> IO[str]:
@@ -28,28 +30,36 @@ class FileProxy(io.TextIOBase):
     def write(self, text: str) -> int:
         if not isinstance(text, str):
             raise TypeError(f"write() argument must be str, not {type(text).__name__}")
-        buffer = self.__buffer
-        lines: List[str] = []
-        while text:
-            line, new_line, text = text.partition("\n")
-            if new_line:
-                lines.append("".join(buffer) + line)
-                del buffer[:]
-            else:
-                buffer.append(line)
-                break
-        if lines:
-            console = self.__console
-            with console:
+        # the pending line and the decoder's state are shared by every thread that prints
+        # (the console is called without the lock: it takes locks of its own)
+        output = None
+        with self.__lock:
+            buffer = self.__buffer
+            lines: List[str] = []
+            while text:
+                line, new_line, text = text.partition("\n")
+                if new_line:
+                    lines.append("".join(buffer) + line)
+                    del buffer[:]
+                else:
+                    buffer.append(line)
+                    break
+            if lines:
                 output = Text("\n").join(
                     self.__ansi_decoder.decode_line(line) for line in lines
                 )
+        if output is not None:
+            console = self.__console
+            with console:
                 console.print(output, markup=False, emoji=False, highlight=False)
         return len(text)
 
     def flush(self) -> None:
-        buffer = self.__buffer
-        if buffer:
-            output = self.__ansi_decoder.decode_line("".join(buffer))
+        output = None
+        with self.__lock:
+            buffer = self.__buffer
+            if buffer:
+                output = self.__ansi_decoder.decode_line("".join(buffer))
+                del buffer[:]
+        if output is not None:
             self.__console.print(output, markup=False, emoji=False, highlight=False)
-            del buffer[:]
